@@ -427,6 +427,8 @@ DTYPES = {"float16": torch.float16, "bfloat16": torch.bfloat16, "float32": torch
 
 
 def _fq(x) -> str:
+    if isinstance(x, float) and (x != x or x in (float("inf"), float("-inf"))):
+        return "nan" if x != x else ("inf" if x > 0 else "-inf")
     f = _Fr(x)
     return str(f.numerator) if f.denominator == 1 else f"{f.numerator}/{f.denominator}"
 
